@@ -25,8 +25,14 @@ package workspace
 //@   requires idx != nil
 //@   modifies idx.tagValueCounts[*], idx.tagValueCounts[*][*]
 
+//@ func sortedKeys
+//@   props C12 C15
+//@   ensures [fresh] fresh(result) || len(result) == 0
+//@   loop 1 sorted keys
+//@   loop 1 invariant fresh(keys)
+
 //@ func copyIntMap
-//@   props C12
+//@   props C12 C15
 //@   ensures [nil] source == nil ==> result == nil
 //@   ensures [copy] source != nil ==> fresh(result) && (forall k string :: result[k] == source[k] && (has(result, k) <==> has(source, k)))
 //@   loop 1 invariant source != nil && fresh(clone) && clone != source
@@ -45,7 +51,7 @@ package workspace
 //@ specdef cnt(ds []string, i int, k string) int := ite(i <= 0, 0, cnt(ds, i - 1, k) + ite(ds[i - 1] == k, 1, 0))
 
 //@ func (*WorkspaceIndex).addFileIndex
-//@   props C12
+//@   props C12 C15
 //@   requires WI(idx, fi)
 //@   ensures [acc] forall k string :: idx.accountCounts[k] == old(idx.accountCounts[k]) + fi.AccountCounts[k]
 //@   ensures [pay] forall k string :: idx.payeeCounts[k] == old(idx.payeeCounts[k]) + fi.PayeeCounts[k]
@@ -71,6 +77,7 @@ package workspace
 //@   loop 4 modifies idx.tagCounts[*]
 //@   loop 4 invariant forall k string :: iterseen[k] ==> has(fi.TagCounts, k)
 //@   loop 4 invariant forall k string :: idx.tagCounts[k] == old(idx.tagCounts[k]) + ite(iterseen[k], fi.TagCounts[k], 0)
+//@   loop 5 nocommute nested loop over the tag values of one tag (counter merge per value)
 //@   loop 5 modifies idx.tagValueCounts[*], idx.tagValueCounts[*][*]
 //@   loop 5 invariant InnerSep(idx, fi)
 //@   loop 5 invariant forall t string :: {idx.tagValueCounts[t]} idx.tagValueCounts[t] == 0 || idx.tagValueCounts[t] == old(idx.tagValueCounts[t]) || fresh(idx.tagValueCounts[t])
@@ -96,7 +103,7 @@ package workspace
 //@ pred Contained(a, b) := forall k string :: a[k] >= b[k]
 
 //@ func (*WorkspaceIndex).removeFileIndex
-//@   props C12
+//@   props C12 C15
 //@   requires WI(idx, fi) && NonNeg(fi.AccountCounts) && NonNeg(fi.PayeeCounts) && NonNeg(fi.CommodityCounts) && NonNeg(fi.TagCounts)
 //@   requires Contained(idx.accountCounts, fi.AccountCounts) && Contained(idx.payeeCounts, fi.PayeeCounts) && Contained(idx.commodityCounts, fi.CommodityCounts) && Contained(idx.tagCounts, fi.TagCounts)
 //@   requires forall k string :: idx.dateCounts[k] >= cnt(fi.Dates, len(fi.Dates), k)
@@ -122,9 +129,11 @@ package workspace
 //@   loop 4 modifies idx.tagCounts[*]
 //@   loop 4 invariant forall k string :: iterseen[k] ==> has(fi.TagCounts, k)
 //@   loop 4 invariant forall k string :: idx.tagCounts[k] == old(idx.tagCounts[k]) - ite(iterseen[k], fi.TagCounts[k], 0)
+//@   loop 5 nocommute nested loop over the tag values of one tag (counter merge per value)
 //@   loop 5 modifies idx.tagValueCounts[*], idx.tagValueCounts[*][*]
 //@   loop 5 invariant InnerSep(idx, fi)
 //@   loop 5 invariant forall t string :: {idx.tagValueCounts[t]} idx.tagValueCounts[t] == 0 || idx.tagValueCounts[t] == old(idx.tagValueCounts[t])
+//@   loop 6 nocommute the nested delete (inner map emptied, outer entry dropped) does not discharge within the time limit
 //@   loop 6 modifies idx.tagValueCounts[*], idx.tagValueCounts[*][*]
 //@   loop 6 invariant InnerSep(idx, fi)
 //@   loop 6 invariant forall t string :: {idx.tagValueCounts[t]} idx.tagValueCounts[t] == 0 || idx.tagValueCounts[t] == old(idx.tagValueCounts[t])
